@@ -20,7 +20,8 @@ Definition ms (i : int) : Z := zi i * 1000000.
 Definition dec_op (v : list int) : option op :=
   match v with
   | [c; a1] =>
-      if Uint63.eqb c 5 then Some (OAdvance (ms a1 + 1))
+      if Uint63.eqb c 13 then Some (OAdvance 0)   (* the delegate's metadata changed, UpdateNode not called: no effect *)
+      else if Uint63.eqb c 5 then Some (OAdvance (ms a1 + 1))
       else if Uint63.eqb c 8 then Some (OLeaveCommit (ni a1))
       else if Uint63.eqb c 11 then Some (OUpdate (ni a1) 1000000) else None
   | [c] =>
